@@ -66,7 +66,9 @@ def cases(draw, rl):
         # the line-up is replaced mid-way (set_samplers): part of the configuration, identical in every variant
         swap = {"after": draw(st.integers(1, n - 1)),
                 "lineup": draw(gen.lineup_spec(kinds=["halton", "rseq", "uniform", "pso"], min_len=2, max_len=4, max_bs=3))}
-    return {"cfg": cfg, "n": n, "variants": variants, "swap": swap,
+    reuse = (not rl) and swap is None and draw(st.integers(0, 5)) == 0 and \
+        all(s_["kind"] in ("uniform", "halton", "rseq", "best", "xgb", "rf", "gp") for s_ in cfg["lineup"])
+    return {"cfg": cfg, "n": n, "variants": variants, "swap": swap, "reuse_sampler_objects": reuse,
             "fresh_twin": (not rl) and (swap is not None or draw(st.integers(0, 9)) == 0)}
 
 
@@ -146,6 +148,24 @@ def check_pure(ctx: Ctx, case):
                          "salt", sub, case)
                 return
             ctx.classes[f"{sub}:fresh-interpreter-twins"] += 1
+    if results and case.get("reuse_sampler_objects") and not rl:
+        # the very same sampler objects serve a second, identical calibration (the calibrator re-seeds them at its first batch;
+        # line-ups with samplers that keep a swarm / a model of the space between calls are not drawn here)
+        vi0, h_first, r_first = results[0]
+        var = variants[vi0]
+        first = calib.build(cfg, seeds=var["seeds"], n_jobs=1, verbose=False, saving_folder=None)
+        with np.errstate(all="ignore"):
+            first.calibrate(n)
+        again = calib.build(cfg, samplers=list(first.scheduler.samplers), n_jobs=1, verbose=False, saving_folder=None)
+        with np.errstate(all="ignore"):
+            ret2 = again.calibrate(n)
+        d2 = calib.hist_diff(h_first, calib.hist_snapshot(again))
+        ctx.classes[f"{sub}:sampler-objects-reused"] += 1
+        if d2 or not (calib.same_values(r_first[0], ret2[0]) and calib.same_values(r_first[1], ret2[1])):
+            ctx.fail("C01/variants-differ", "a second calibration of the same configuration and seed that is handed the same sampler "
+                     f"objects (already used by the first one) produces a different result: {d2 or 'return value differs'}", sub,
+                     case)
+            return
     if len(results) < 2:
         return
     v0, h0, r0 = results[0]
